@@ -351,7 +351,25 @@ def run(ctx, replay=None):
         pos += len(js)
         if not hs:
             raise vf.Infra("no history generated for " + a.name)
+        # model-independent variants: every accept three times, every resolve twice (a lookup must not change what
+        # the next lookup of the same value answers: "keeps accepting its own previous rotation value during the
+        # grace period"); the exhaustive histories are too short to repeat a call after a period boundary
+        stut = []
+        for h in hs:
+            if any(st["act"] == "accept" for st in h) and any(st["act"] == "tick" for st in h):
+                g = []
+                for st in h:
+                    g.append(st)
+                    if st["act"] == "accept":
+                        g += [dict(st), dict(st)]
+                    elif st["act"] == "resolve":
+                        g.append(dict(st))
+                stut.append(g)
+        if len(stut) > len(hs):
+            stut = ctx.rng.sample(stut, len(hs))
+        hs = hs + stut
         ctx.extra.setdefault("histories", {})[a.name] = len(hs)
+        ctx.extra.setdefault("stuttered_histories", {})[a.name] = len(stut)
         for off, cap in zip(a.offsets, per_off):
             sel = hs if cap is None or len(hs) <= cap else ctx.rng.sample(hs, cap)
             gid = len(groups)
